@@ -1055,6 +1055,95 @@ def rule_h(ck, u):
         ck.holds('C20.h', 'no-strchr-classes', UNIT, 'no character class is decided by a string search')
 
 
+C_LOCALE = {'isspace': set([9, 10, 11, 12, 13, 32]), 'isdigit': set(range(48, 58)),
+            'isxdigit': set(range(48, 58)) | set(range(65, 71)) | set(range(97, 103)),
+            'isalpha': set(range(65, 91)) | set(range(97, 123)), 'isalnum': set(range(48, 58)) | set(range(65, 91)) | set(range(97, 123))}
+
+
+def _octet_class(conds, is_subject, v):
+    """truth of a conjunction of path conditions for the octet value v of the subject (the classified character):
+    comparisons of the subject with constants, <ctype.h> classes (call or classification-table form, "C" locale);
+    None if a condition about the subject has a form this evaluation does not read; conditions that do not mention the
+    subject are not the character's business (True)."""
+    sv = v if v < 128 else v - 256             # plain char is signed in this build; the casts below see through both
+    def val(t):
+        t0 = t
+        while t0[0] == 'cast':
+            t0 = t0[2]
+        if is_subject(t0):
+            if t[0] == 'cast' and 'unsigned' in str(t[1]):
+                return v
+            return sv
+        if sym.is_c(t0):
+            return t0[1]
+        return None
+    for c in conds:
+        if not any(is_subject(x) for x in sym.subterms(c)):
+            continue
+        if c[0] != 'cmp':
+            return None
+        lhs, rhs = c[2], c[3]
+        cls = None
+        l0 = lhs
+        while l0[0] == 'cast':
+            l0 = l0[2]
+        if l0[0] == '&b' and sym.is_c(l0[2]) and '__ctype_b_loc' in fmt(l0[1]):
+            cls = ctype_masks().get(l0[2][1])
+        elif l0[0] == 'call' and l0[1] in C_LOCALE:
+            cls = l0[1]
+        if cls is not None:
+            if cls not in C_LOCALE or not sym.is_c(rhs) or rhs[1] != 0 or c[1] not in ('==', '!='):
+                return None
+            member = v in C_LOCALE[cls]
+            if member != (c[1] == '!='):
+                return False
+            continue
+        a, b = val(lhs), val(rhs)
+        if a is None or b is None:
+            return None
+        if not {'==': a == b, '!=': a != b, '<': a < b, '<=': a <= b, '>': a > b, '>=': a >= b}[c[1]]:
+            return False
+    return True
+
+
+def rule_i(ck, u):
+    """C20.i  Whitespace between tokens round-trips: every octet skip_ws() passes over as whitespace in front of a token also
+    ENDS the token before it (nextisdelimiter).  The two sites are separate classifications; if one knows six whitespace
+    octets and the other four, `(a\vb)` - printed form plus arbitrary inter-token whitespace - is a broken symbol.  Both
+    sets are read off the path conditions, octet by octet ("C" locale for the <ctype.h> classes)."""
+    eng = sym.Engine(u, sizeof={}, inline=set())
+    where = cast.where(u.fn('skip_ws'))
+    if u.fn('nextisdelimiter') is None:
+        return ck.broken('C20.i', 'delimiters', where, 'nextisdelimiter missing (anchor vanished)')
+    pw = [p for p in eng.paths('skip_ws') if p.end == 'loopback']
+    pd = [p for p in eng.paths('nextisdelimiter') if p.end == 'return']
+    if not pw or not pd:
+        return ck.broken('C20.i', 'delimiters', where, 'no skipping iteration / no classification path found')
+    is_s = lambda t: t[0] == 'i' and strip(t[1]) == S          # s[...]
+    is_c_ = lambda t: t == ('v', 'c')
+    W, D = set(), set()
+    for v in range(256):
+        for p in pw:
+            r = _octet_class(p.cond_terms(), is_s, v)
+            if r is None:
+                return ck.broken('C20.i', 'delimiters', where, 'skip_ws decides on a form this rule does not read: %s' % '; '.join(fmt(c) for c in p.cond_terms()))
+            if r:
+                W.add(v)
+        for p in pd:
+            r = _octet_class(p.cond_terms(), is_c_, v)
+            if r is None or p.ret is None or not sym.is_c(strip(p.ret)):
+                return ck.broken('C20.i', 'delimiters', cast.where(u.fn('nextisdelimiter')), 'nextisdelimiter decides on a form this rule does not read: %s' % '; '.join(fmt(c) for c in p.cond_terms()))
+            if r and strip(p.ret)[1] != 0:
+                D.add(v)
+    if not W:
+        return ck.broken('C20.i', 'delimiters', where, 'skip_ws skips no octet at all')
+    miss = sorted(W - D)
+    ck.verdict(not miss, 'C20.i', 'delimiters', where,
+               'every octet skipped as whitespace (%s) also ends the token before it (delimiters: %s)' % (sorted(W), sorted(D)) if not miss else
+               'skip_ws() skips the octets %s as whitespace in front of a token, but nextisdelimiter() does not take them for the end of the token before: '
+               'an atom followed by one of them (0x%02x) is a broken symbol / integer although the same octet is accepted everywhere else' % (miss, miss[0]))
+
+
 def run(ck):
     ck.rule('C20.h', 'character classes decided by strchr(table, c) exclude c == 0 first (the search finds the terminator)')
     ck.rule('C20.e', 'token table: classification decision list, one parser arm per class with the right failure status, (offset, digit predicate, base) per integer syntax, positional value accumulation, symbol text window')
@@ -1096,5 +1185,10 @@ def run(ck):
         rule_f(ck, u)
     except (sym.Unsupported, sym.PathLimit, _Shape) as e:
         ck.broken('C20.f', 'summaries', UNIT, 'result-summary analysis: %s' % e)
+    ck.rule('C20.i', 'whitespace / delimiter agreement: every octet skip_ws passes over in front of a token also ends the token before it (sets read off the path conditions octet by octet)')
+    try:
+        rule_i(ck, u)
+    except (sym.Unsupported, sym.PathLimit) as e:
+        ck.broken('C20.i', 'engine', UNIT, str(e))
     rule_b(ck, u)
     rule_h(ck, u)
